@@ -379,8 +379,10 @@ def gen_minneeds(rng, dyadic):
         else:
             Kconv = K / 2
             pf = 87.5
+    # fat / protein tracked flags on the stub round-1 results: all four combinations (the clauses are about kcals)
+    fl = rng.choice([(False, False), (False, False), (True, False), (False, True), (True, True)])
     return {"kind": "minneeds", "K": K, "T": T, "pf": float(pf), "Kconv": Kconv, "N": N, "series": series, "mode": mode,
-            "dyadic": dyadic}
+            "dyadic": dyadic, "inc_fat": fl[0], "inc_protein": fl[1]}
 
 
 def boundary_minneeds(rng):
@@ -411,6 +413,22 @@ def boundary_minneeds(rng):
                 c["T"], c["pf"] = 0.0, 0.0
             c["mode"] = "boundary:" + what
             out.append(c)
+    # always: all four flag combinations with a no-feed result BELOW the threshold (and one above it)
+    for k, (fat, prot) in enumerate([(False, False), (True, False), (False, True), (True, True)] * 2):
+        dyadic = k < 4
+        c = gen_minneeds(rng, dyadic)
+        while c["mode"] == "malformed" or min(sum(c["series"][a][m] for a in ATTRS) for m in range(c["N"])) <= 0:
+            c = gen_minneeds(rng, dyadic)
+        c["T"] = 100.0 if k % 2 == 0 else 90.0
+        worst = float(100.0 * min(sum(c["series"][a][m] for a in ATTRS) for m in range(c["N"])) / c["K"])
+        while worst > 80.0:
+            for a in ATTRS:
+                c["series"][a] = [v / 2 for v in c["series"][a]]
+            worst = float(100.0 * min(sum(c["series"][a][m] for a in ATTRS) for m in range(c["N"])) / c["K"])
+        c["pf"] = worst
+        c["inc_fat"], c["inc_protein"] = fat, prot
+        c["mode"] = "flags:pf<T"
+        out.append(c)
     return out
 
 
@@ -487,7 +505,8 @@ def term_for(case, r):
             obs = "(OVal " + clist([f"({cstr(kk)}, {fql(unhex(r['out'][kk]))})" for kk in r["keys"]]) + ")"
         scale = 0.0 if tight else maxabs(*case["series"].values())
         ser = " ".join(fql(case["series"][a]) for a in ATTRS)
-        return (f"check_min_needs {LOOSE if not tight else '(1#100000000000)'} {fq(scale)} {fq(case['K'])} {fq(case['T'])} "
+        tracked = "true" if (case.get("inc_fat") or case.get("inc_protein")) else "false"
+        return (f"check_min_needs {LOOSE if not tight else '(1#100000000000)'} {fq(scale)} {tracked} {fq(case['K'])} {fq(case['T'])} "
                 f"{fq(case['pf'])} {fq(case['Kconv'])} {cnat(case['N'])} (mk_r1 {ser}) {obs}")
     raise ValueError(k)
 
@@ -552,6 +571,8 @@ def branch_tags(case, r):
         t.append("increase:some_month_positive" if any(v > 0 for v in unhex(r["inc"])) else "increase:all_zero")
     elif k == "minneeds":
         t.append("min:pf>T" if case["pf"] > case["T"] else "min:pf<=T")
+        t.append(f"min:flags(fat={bool(case.get('inc_fat'))},protein={bool(case.get('inc_protein'))})"
+                 + (",pf<T" if case["pf"] < case["T"] else ""))
         if case["T"] == 0:
             t.append("min:T==0" + ("(int)" if case.get("T_int") else ""))
         if case["T"] == 100:
